@@ -8,7 +8,7 @@ def block(c, cat):
     cid = '%s_n%d_i%d_j%d_%s' % (h, n, i, j, cat)
     T = 'ht::TrMO' if cat == 'mo' else 'ht::Tr'
     C = 'ht::ContT<%s, %s>' % (T, 'false' if cat == 'mo' else 'true')
-    o = ['  { ht::reset(); const char* cid = "%s";' % cid]
+    o = ['  { ht::reset(); const char* cid = "%s"; ht::cur = cid;' % cid]
     names = []
     for k in range(1, n + 1):
         if h in ('push_back', 'emplace_back') and k == c['cont']:
@@ -35,6 +35,10 @@ def block(c, cat):
         o.append('    ht::check(r.from == %d, cid, "not built from the %d-th argument");' % (i, i))
         o.append('    ht::check(ht::copies == 0 && ht::moves == 0, cid, "an argument was copied or moved");')
         o.append('    ht::check(%s, cid, "an argument was modified");' % intact)
+        if cat == 'lv':
+            # T's constructor may throw (odd values do): the exception leaves the helper as it is, whatever T's moves promise
+            o.append('    { bool caught = false; try { auto t_ = ctpg::ftors::construct<ht::ThrowT, %d>{}(%s); (void)t_; } catch (const std::runtime_error&) { caught = true; }' % (i, args))
+            o.append('      ht::check(caught == %s, cid, "an exception thrown while T is built does not reach the caller as it was thrown"); }' % ('true' if i % 2 == 1 else 'false'))
         if cat != 'mo':
             # construct<list_type, I>: "constructs list_type{value}" - the list holding exactly the I-th value (Helpers!Built)
             want = c['built'][0] + 10
@@ -87,7 +91,7 @@ def block(c, cat):
 
 
 def tu(cases, cats=('lv', 'rv', 'mo')):
-    o = ['#include "helpers_rt.hpp"', 'int main() {']
+    o = ['#include "helpers_rt.hpp"', 'int main() {', '  std::set_terminate(ht::on_terminate);']
     n = 0
     for c in cases:
         for cat in cats:
